@@ -436,6 +436,31 @@ def near_miss(rng):
     literal or another variable.  The guards of a simplifier (operand must be constant / the same / different) are exactly what
     such a change violates, so a rule that fires anyway fires wrongly."""
     name, tree = rule_directed(rng)
+    if rng.random() < 0.4:
+        # … or ONE operator replaced by a sibling of the same type (signed/unsigned, strict/non-strict, mirrored, lshr/ashr, and/or):
+        # a rule keyed on the operator's family instead of the operator fires wrongly
+        sib = {"uge": ["sge", "ugt", "ule"], "ugt": ["sgt", "uge"], "ule": ["sle", "ult", "uge"], "ult": ["slt", "ule"],
+               "sge": ["uge", "sgt"], "sgt": ["ugt", "sge"], "sle": ["ule", "slt"], "slt": ["ult", "sle"], "eq": ["ne"], "ne": ["eq"],
+               "lshr": ["ashr", "shl"], "ashr": ["lshr"], "shl": ["lshr"], "and": ["or", "xor"], "or": ["and", "xor"], "xor": ["or", "and"],
+               "add": ["sub"], "sub": ["add"], "And": ["Or"], "Or": ["And"], "udiv": ["sdiv"], "sdiv": ["udiv"], "umod": ["smod"], "smod": ["umod"],
+               "rotl": ["rotr"], "rotr": ["rotl"]}
+        ops = []
+
+        def walk_ops(t, path):
+            if isinstance(t, tuple) and t[0] not in ("bvv", "bvs", "boolv", "bools", "int"):
+                if t[0] in sib and (t[0] not in ("sub",) or len(t) == 3):
+                    ops.append(path)
+                for i, c in enumerate(t[1:], 1):
+                    walk_ops(c, path + (i,))
+        walk_ops(tree, ())
+        if ops:
+            pth = rng.choice(ops)
+
+            def swap(t, path):
+                if not path:
+                    return (rng.choice(sib[t[0]]),) + t[1:]
+                return t[:path[0]] + (swap(t[path[0]], path[1:]),) + t[path[0] + 1:]
+            return name + "+near-miss-op", swap(tree, pth)
     paths = []
 
     def walk(t, path):
